@@ -99,8 +99,9 @@ CHECKS = {
     "C15": dict(
         families=lambda tier: [fam("ladder", shards=8, crumbs=True), fam("growers", shards=8, crumbs=True)],
         max_deaths=80,
+        case_wall_s=15,
         death_is_verdict=True,
-        rule="(ladder) every registered instruction that takes INTEGER operands x every INTEGER operand position x the magnitude ladder {-1,0,1,2,10^3,10^6,2^31-1,-10^6,MIN+1,MIN} (other operands small), one real interpreter step each in a worker whose global allocator counts bytes/allocations and enforces a budget (256 MiB additional live memory, 5*10^7 allocations): a step over budget terminates the worker at once and is attributed to its case through a breadcrumb, restarted after it; oracle on deterministic counters: <= 64 MiB allocated, <= 4*10^6 allocations, <= 10 s (backstop) per step; (growers) every program up to K points over {CODE.DUP, CODE.LIST, CODE.APPEND, CODE.CONS, EXEC.Y, EXEC.S, EXEC.DUP, CODE.QUOTE, a name, NAME.DUP, NAME.CAT} stepped under the default limits (1000 steps, growth cap 500) with monitors after every step: no CODE/EXEC item exceeds max-points-in-program, no name longer than 512 KiB, live heap <= 1 GiB, no step over 10 s",
+        rule="(ladder) every registered instruction that takes INTEGER operands x every INTEGER operand position x the magnitude ladder {-1,0,1,2,10^3,10^6,2^31-1,-10^6,MIN+1,MIN} (other operands small), plus every pair of INTEGER operand positions both at 100 and both at 1000 (cooperating operands), one real interpreter step each in a worker whose global allocator counts bytes/allocations and enforces a budget (256 MiB additional live memory, 5*10^7 allocations): a step over budget terminates the worker at once and is attributed to its case through a breadcrumb, restarted after it; oracle on deterministic counters: <= 64 MiB allocated, <= 4*10^6 allocations, <= 10 s per step (a watchdog thread terminates a case that spins without allocating after 15 s); (growers) every program up to K points over {CODE.DUP, CODE.LIST, CODE.APPEND, CODE.CONS, EXEC.Y, EXEC.S, EXEC.DUP, CODE.QUOTE, a name, NAME.DUP, NAME.CAT} stepped under the default limits (1000 steps, growth cap 500) with monitors after every step: no CODE/EXEC item exceeds max-points-in-program, no name longer than 512 KiB, live heap <= 1 GiB, no step over 10 s",
         bounds=dict(quick="K=4 (2352 programs)", thorough="K=5"),
         assumptions=["'modest function of the state' is instantiated by fixed thresholds two orders of magnitude above anything legitimate for the tiny states used and two below what 2^31-1 requests"],
     ),
